@@ -198,6 +198,35 @@ fn legit_tokens(path: &[&CmdSpec], level: &CmdSpec) -> HashSet<String> {
             add(t);
         }
     }
+    if level.settings.flatten_help {
+        fn add_tree(c: &CmdSpec, add: &mut dyn FnMut(&str)) {
+            for a in c.args.iter().filter(|a| !a.hide) {
+                add(&a.id);
+                if let Some(l) = &a.long {
+                    add(l);
+                }
+                for v in &a.value_names {
+                    add(v);
+                }
+                for t in [&a.help, &a.long_help].into_iter().flatten() {
+                    add(t);
+                }
+            }
+            for sc in c.subs.iter().filter(|s| !s.hide) {
+                add(&sc.name);
+                if let Some(l) = &sc.long_flag {
+                    add(l);
+                }
+                for t in [&sc.about, &sc.long_about].into_iter().flatten() {
+                    add(t);
+                }
+                add_tree(sc, add);
+            }
+        }
+        for sc in level.subs.iter().filter(|s| !s.hide) {
+            add_tree(sc, &mut add);
+        }
+    }
     for w in ["help", "Print", "this", "message", "or", "the", "of", "given", "subcommand", "s", "version", "Usage", "Options",
         "Arguments", "Commands", "OPTIONS", "COMMAND", "default", "possible", "values", "env", "aliases", "short", "see", "more",
         "with", "summary", "For", "information", "try", "a", "h", "V"]
@@ -250,12 +279,9 @@ fn check_level_help(
         run,
         help
     );
-    if !judge_sections {
-        return Verdict::Pass;
-    }
     let secs = sections(help);
     // visible args listed in their section
-    for a in &level.args {
+    for a in level.args.iter().filter(|_| judge_sections) {
         if a.action.is_help_or_version() && a.hide {
             continue;
         }
@@ -301,7 +327,7 @@ fn check_level_help(
     }
     // visible subcommands listed
     let sub_title = level.subcommand_help_heading.clone().unwrap_or_else(|| "Commands".to_owned());
-    for sc in &level.subs {
+    for sc in level.subs.iter().filter(|_| judge_sections) {
         if !sc.hide {
             let listed = secs.iter().filter(|(t, _)| *t == sub_title).any(|(_, body)| {
                 body.iter().any(|l| line_lists(l, &[sc.name.clone()]))
@@ -385,7 +411,7 @@ fn check_level_help(
             }
         }
         // hidden possible values: never in the listing of that argument
-        if let ParserSpec::Possible(pvs) = &a.parser {
+        if let (ParserSpec::Possible(pvs), true) = (&a.parser, judge_sections) {
             for pv in pvs.iter().filter(|p| p.hide && !p.name.is_empty()) {
                 let used_as_default = a.default_values.contains(&pv.name)
                     || a.default_missing_values.contains(&pv.name)
